@@ -131,6 +131,7 @@ func exec(op string) string {
 	switch f[0] {
 	case "new":
 		last, lastBlob, lastMkOut = nil, nil, ""
+		ResetSigners()
 		return "ok"
 	case "mkd":
 		out, b := MakeData(f)
